@@ -60,18 +60,35 @@ def sync_lock():
         shutil.copy(src, dst)
 
 
-def build(profiles=("verif",), bins=("fv",)):
+def build(profiles=("verif",), bins=("fv",), parallel=False):
+    """profiles other than `verif` get a target directory of their own so that they can be built concurrently"""
     sync_lock()
     t0 = time.time()
+    procs = []
     for prof in profiles:
         cmd = ["cargo", "build", "--offline", "--profile", prof]
         for b in bins:
             cmd += ["--bin", b]
-        r = subprocess.run(cmd, cwd=HARNESS, env=cargo_env(), stdout=subprocess.PIPE, stderr=subprocess.STDOUT, text=True)
-        if r.returncode != 0:
-            sys.stdout.write(r.stdout[-6000:])
-            return False, time.time() - t0
-    return True, time.time() - t0
+        env = cargo_env()
+        if prof != "verif":
+            env["CARGO_TARGET_DIR"] = os.path.join(TARGET, "p-" + prof)
+        p = subprocess.Popen(cmd, cwd=HARNESS, env=env, stdout=subprocess.PIPE, stderr=subprocess.STDOUT, text=True)
+        procs.append(p)
+        if not parallel:
+            p.wait()
+    ok = True
+    for p in procs:
+        out, _ = p.communicate()
+        if p.returncode != 0:
+            sys.stdout.write((out or "")[-6000:])
+            ok = False
+    return ok, time.time() - t0
+
+
+def profile_bin(prof, name):
+    if prof == "verif":
+        return os.path.join(TARGET, "verif", name)
+    return os.path.join(TARGET, "p-" + prof, "debug" if prof == "dev" else prof, name)
 
 
 def limit_child():
@@ -87,11 +104,12 @@ def shard_plan(cfg, tier):
     return {s: max(1, w.get(s, 1)) for s in suites}
 
 
-def run_shards(prop, cfg, tier, seed, outdir, only=None):
+def run_shards(prop, cfg, tier, seed, outdir, only=None, binpath=None, env=None):
     """Run all fv shards; returns (results, dead) where dead lists shards that died."""
     plan = shard_plan(cfg, tier)
     jobs = []
-    binpath = cfg.get("bin", FV)
+    binpath = binpath or cfg.get("bin", FV)
+    os.makedirs(outdir, exist_ok=True)
     for s, n in plan.items():
         for i in range(n):
             if only and (only["suite"] != s or i != 0):
@@ -111,7 +129,7 @@ def run_shards(prop, cfg, tier, seed, outdir, only=None):
         while queue and len(running) < maxpar:
             s, i, cmd = queue.pop(0)
             lf = open(os.path.join(outdir, f"{prop}.{s}.{i}.stderr"), "w")
-            p = subprocess.Popen(cmd, stdout=lf, stderr=subprocess.STDOUT, preexec_fn=limit_child, env=cfg.get("env", None))
+            p = subprocess.Popen(cmd, stdout=lf, stderr=subprocess.STDOUT, preexec_fn=limit_child, env=env)
             running.append((s, i, cmd, p, lf, time.time()))
         time.sleep(0.05)
         for r in list(running):
@@ -225,12 +243,26 @@ def main():
     elif cfg.get("pregen") and replay:
         cfg["pregen"](outdir, replay.get("tier", tier), replay.get("seed", seed))
 
-    # 4. run the shards
+    # 4. run the shards (C20: once per build profile, each with its own probe binary)
+    only = None
     if replay:
         tier, seed = replay.get("tier", tier), replay.get("seed", seed)
-        results, dead, secs = run_shards(prop, cfg, tier, seed, outdir, only={"suite": replay["suite"], "item": replay["item"]})
+        only = {"suite": replay["suite"], "item": replay["item"]}
+    if cfg.get("profiles"):
+        results, dead, secs = [], [], 0.0
+        for prof in cfg["profiles"]:
+            if replay and replay.get("detail", {}).get("profile") not in (None, prof):
+                continue
+            env = dict(os.environ)
+            env["FV_PROFILE_NAME"] = prof
+            r, d, s_ = run_shards(prop, cfg, tier, seed, os.path.join(outdir, prof), only=only, binpath=profile_bin(prof, cfg["probe"]), env=env)
+            for x in r:
+                x["classes"] = list(x["classes"])
+            results += r
+            dead += d
+            secs += s_
     else:
-        results, dead, secs = run_shards(prop, cfg, tier, seed, outdir)
+        results, dead, secs = run_shards(prop, cfg, tier, seed, outdir, only=only)
     m = merge(results)
 
     # 5. a dead shard: C14 attributes it to its last input, everything else is inconclusive
